@@ -5,6 +5,7 @@
    and repeat (else the target's) and leads to the TARGET's objects.  Definitions only. *)
 From Coq Require Import ZArith List Bool String Ascii.
 From DD Require Import Common Mir GenErr AddrPath.
+From DD Require Case.
 Import ListNotations.
 Open Scope string_scope.
 Open Scope Z_scope.
@@ -13,10 +14,11 @@ Inductive mkind := KReg (acc : access) | KCmd | KBuf (acc : access) | KBlock.
 
 Record meth := { m_name : string; m_kind : mkind; m_addr : Z; m_rep : option repeat }.
 
-Definition lower_char (c : ascii) : ascii :=
-  let n := nat_of_ascii c in if (Nat.leb 65 n && Nat.leb n 90)%bool then ascii_of_nat (n + 32) else c.
-Fixpoint lower_str (s : string) : string :=
-  match s with EmptyString => EmptyString | String c t => String (lower_char c) (lower_str t) end.
+(* the accessor of an object is named by the snake_case form of its (normalised) name: lir_transform's
+   `name.to_case(convert_case::Case::Snake)`, default boundaries (Case.v).  `Ra` -> ra, `RcQ` -> rc_q, `Rcq` -> rcq: names
+   that differ only in letter case stay different methods. *)
+Definition meth_name (n : string) : string := Case.to_snake_default n.
+Arguments meth_name : simpl never.
 
 (* search_object on the pre-order list = DFS first match *)
 Definition find_object (all : list object) (name : string) : option object :=
@@ -24,14 +26,14 @@ Definition find_object (all : list object) (name : string) : option object :=
 
 Definition method_of (all : list object) (o : object) : option meth :=
   match o with
-  | OBlock _ n off rep _ => Some {| m_name := lower_str n; m_kind := KBlock; m_addr := off; m_rep := rep |}
-  | ORegister r => Some {| m_name := lower_str (rg_name r); m_kind := KReg (rg_access r); m_addr := rg_address r; m_rep := rg_repeat r |}
-  | OCommand c => Some {| m_name := lower_str (cm_name c); m_kind := KCmd; m_addr := cm_address c; m_rep := cm_repeat c |}
-  | OBuffer b => Some {| m_name := lower_str (bf_name b); m_kind := KBuf (bf_access b); m_addr := bf_address b; m_rep := None |}
+  | OBlock _ n off rep _ => Some {| m_name := meth_name n; m_kind := KBlock; m_addr := off; m_rep := rep |}
+  | ORegister r => Some {| m_name := meth_name (rg_name r); m_kind := KReg (rg_access r); m_addr := rg_address r; m_rep := rg_repeat r |}
+  | OCommand c => Some {| m_name := meth_name (cm_name c); m_kind := KCmd; m_addr := cm_address c; m_rep := cm_repeat c |}
+  | OBuffer b => Some {| m_name := meth_name (bf_name b); m_kind := KBuf (bf_access b); m_addr := bf_address b; m_rep := None |}
   | ORef _ n (OvRegister target acc addr _ _ rep) =>
     match find_object all target with
     | Some (ORegister r) =>
-      Some {| m_name := lower_str n;
+      Some {| m_name := meth_name n;
               m_kind := KReg (match acc with Some a => a | None => rg_access r end);
               m_addr := match addr with Some a => a | None => rg_address r end;
               m_rep := match rep with Some x => Some x | None => rg_repeat r end |}
@@ -40,7 +42,7 @@ Definition method_of (all : list object) (o : object) : option meth :=
   | ORef _ n (OvCommand target addr _ rep) =>
     match find_object all target with
     | Some (OCommand c) =>
-      Some {| m_name := lower_str n; m_kind := KCmd;
+      Some {| m_name := meth_name n; m_kind := KCmd;
               m_addr := match addr with Some a => a | None => cm_address c end;
               m_rep := match rep with Some x => Some x | None => cm_repeat c end |}
     | _ => None
@@ -48,7 +50,7 @@ Definition method_of (all : list object) (o : object) : option meth :=
   | ORef _ n (OvBlock target off rep) =>
     match find_object all target with
     | Some (OBlock _ _ toff trep _) =>
-      Some {| m_name := lower_str n; m_kind := KBlock;
+      Some {| m_name := meth_name n; m_kind := KBlock;
               m_addr := match off with Some a => a | None => toff end;
               m_rep := match rep with Some x => Some x | None => trep end |}
     | _ => None
